@@ -162,3 +162,29 @@ Example C12_old_shape_record_differs_from_wire :
   exists o1 o2 ps, Forall wf_param ps /\ override_bytes_old o1 ps <> wire_bytes o2 ps.
 Proof. exact old_record_wire_bytes_can_differ. Qed.
 Print Assumptions C12_old_shape_record_differs_from_wire.
+
+(** Spec reuse (regression for the repaired newUClientConnection, which works on its own copy of
+    the extension): the list a dial sends is a function of the spec's own, untouched list, the
+    suppression set and THIS connection's source connection ID: no suppressed parameter is sent,
+    and an initial_source_connection_id left empty in the spec carries this connection's ID,
+    whatever earlier dials of the same spec value did. *)
+Theorem C12_dial_list_not_suppressed : forall sup scid ps p,
+  In p (dial_list sup scid ps) -> suppressed sup (fst p) = false.
+Proof. exact dial_list_not_suppressed. Qed.
+Print Assumptions C12_dial_list_not_suppressed.
+
+Theorem C12_dial_list_own_scid : forall sup scid ps,
+  (forall q, In q ps -> fst q = tpInitialSourceConnectionID -> snd q = []) ->
+  forall p, In p (dial_list sup scid ps) -> fst p = tpInitialSourceConnectionID -> snd p = scid.
+Proof. exact dial_list_own_scid. Qed.
+Print Assumptions C12_dial_list_own_scid.
+
+(** Connection ID rotation at the advertised limit (covered by C12_no_error_iff, whose histories
+    include [EvCIDRotate]: the count is taken after the retirement Retire Prior To demands):
+    fill the limit, rotate the ID in use, before and after the client's own rotation, retire
+    several at once -- every built-in parrot plays it to the end. *)
+Example C12_cid_rotation_at_limit_ok :
+  Forall (fun kv => let a := advertised kv in play a (enforced_spec a default_config) (cid_rotation_history a) = Fine)
+         advenf_all_specs.
+Proof. exact cid_rotation_fine. Qed.
+Print Assumptions C12_cid_rotation_at_limit_ok.
